@@ -65,6 +65,27 @@ def mk_seg(kind, params):
     return Arc(s, r, rot, la, sw, e)
 
 
+def detect_variant():
+    """which QuadraticBezier.length is installed?  Probes (not judged cases):
+       nl  — branch `elif abs(a) < 1e-8*abs(b)` present (repair C06-quad-length-near-linear);
+       fin — a non-finite closed form goes to the fallback formulas (repair
+             C06-quad-length-collinear-nonfinite)."""
+    from svgpathtools import QuadraticBezier
+    with warnings.catch_warnings():
+        warnings.simplefilter('ignore')
+        nl = abs(float(QuadraticBezier(0, 0.5 + 1e-12j, 1).length()) - 1.0) < 1e-9
+        fin = math.isfinite(float(QuadraticBezier(-26.68086654907189 + 49.97466819715139j,
+                                                  -29.9040926430843 + 46.96613742520217j,
+                                                  -26.68086654907189 + 49.97466819715139j).length()))
+    return nl, fin
+
+
+REQUIRED = {'nl': ['C06_quad_near_linear'], 'fin': ['C06_quad_collinear'],
+            'always': ['C06_line', 'C06_nonneg', 'C06_additive', 'C06_chord_le', 'C06_segment_length_le',
+                       'C06_ctrl_polygon_ge', 'C06_bracket_cubic', 'C06_bracket_quad', 'C06_bracket_arc_samples',
+                       'C06_quad_closed_form', 'C06_quad_collinear', 'C06_quad_small_a', 'C06_path_sum']}
+
+
 # ---------------------------------------------------------------- generator
 def gen_segment(rng):
     """returns (kind, params, subkind, special_ts) — special_ts: parameters where
@@ -101,7 +122,7 @@ def gen_segment(rng):
             eps = 10 ** rng.uniform(-14, -4)
             return 'quad', [a, a + d * k1 + 1j * d * eps, a + d * k2], sub, []
         p, q = rnd_c(rng, sc), rnd_c(rng, sc)            # tiny-a: control = midpoint (+ tiny)
-        off = rng.choice([0, 1e-14, 3e-13, 1e-11])
+        off = rng.choice([0, 1e-14, 3e-13, 1e-11, 1e-9 * abs(q - p), 3e-8 * abs(q - p), 1e-6 * abs(q - p)])
         return 'quad', [p, (p + q) / 2 + off, q], sub, []
     if r < 0.75:
         sub = rng.choice(['generic', 'generic', 'generic', 'collinear-nofold', 'collinear-fold', 'repeated', 'cusp'])
@@ -310,12 +331,14 @@ OKDEF_CLOSED = r'''
 From SVP Require Import Model.Bezier Model.Length.
 Definition N := NumB. Definition T := NumTB.
 Definition isnan (x : bf) : bool := negb (F.real x).
+(* is the nearly straight branch installed (detected by the harness's probe)? *)
+Definition NL : bool := @NL@.
 (* (kind 0 = line / 1 = quad, control points, t0, t1, tolerance, observation) *)
 Definition casety : Type := (nat * list (Cplx bf) * bf * bf * bf * bf)%type.
 Definition model (kind : nat) (p : list (Cplx bf)) (t0 t1 : bf) : bf :=
   match kind, p with
   | 0, [s; e] => line_length N T s e t0 t1
-  | 1, [s; c; e] => quad_length N T isnan s c e t0 t1
+  | 1, [s; c; e] => quad_length N T NL isnan s c e t0 t1
   | _, _ => F.nan
   end.
 Definition ok (c : casety) : nat :=
@@ -461,6 +484,16 @@ def run(rep, tier, seed, replay=None):
     quick = (tier == 'quick')
     with common.Scratch() as tmp:
         info = common.std_static(rep, 'C06', GEN_GROUPS, AGREE, tmp)
+        v_nl, v_fin = detect_variant()
+        rep.cov['variant'] = {'near_linear_branch(nl)': v_nl, 'nonfinite_to_fallback(fin)': v_fin}
+        need = REQUIRED['always'] + (REQUIRED['nl'] if v_nl else []) + (REQUIRED['fin'] if v_fin else [])
+        missing = [t for t in need if t not in rep.cov.get('theorems', [])]
+        rep.cov['required_theorems'] = sorted(set(need))
+        if missing:
+            rep.violation('Props/C06.v lacks the theorems required for the installed variant: %s' % missing,
+                          {'kind': 'theorem', 'missing': missing, 'variant': rep.cov['variant']},
+                          found_input=False, key='props')
+        okdef_closed = OKDEF_CLOSED.replace('@NL@', 'true' if v_nl else 'false')
         nseg = 130 if quick else 800
         if info['agree_failed'] or info['untranslated'].keys() - {'gen_Quad_length'}:
             nseg *= 3
@@ -570,7 +603,13 @@ def run(rep, tier, seed, replay=None):
                     arc_meta.append((kind, params, sub, t0, t1, vals, tol, len(ps)))
                 # ---------- closed-form models (line, quad)
                 if kind == 'line' or (kind == 'quad' and not vanish and not sub.startswith(('near-collinear', 'collinear'))):
-                    ctol = 1e-9 * max(vals[0][1], scale * 1e-3)
+                    # forward error of the binary64 closed form grows like eps |b|/|a| (C06_quad_* are exact
+                    # statements; this tie is about the formula, not its conditioning)
+                    cond = 1.0
+                    if kind == 'quad':
+                        a_ = params[0] - 2 * params[1] + params[2]; b_ = 2 * (params[1] - params[0])
+                        cond = max(1.0, 1e-6 * abs(b_) / abs(a_)) if abs(a_) >= 1e-12 else 1.0
+                    ctol = 1e-9 * cond * max(vals[0][1], scale * 1e-3)
                     closed_terms.append('(%d, %s, %s, %s, %s, %s)' % (
                         0 if kind == 'line' else 1, coq_list([cbf(p) for p in params]), bf(t0), bf(t1), bf(ctol), bf(vals[0][1])))
                     closed_meta.append((kind, params, sub, t0, t1, vals[:1], ctol))
@@ -656,7 +695,7 @@ def run(rep, tier, seed, replay=None):
                                            None, params))
 
         jobs = [('bez', OKDEF_BEZ, bez_terms, bez_meta, 12), ('arc', OKDEF_ARC, arc_terms, arc_meta, 3),
-                ('closed', OKDEF_CLOSED, closed_terms, closed_meta, 60), ('seglen', OKDEF_SEGLEN, sl_terms, sl_meta, 2),
+                ('closed', okdef_closed, closed_terms, closed_meta, 60), ('seglen', OKDEF_SEGLEN, sl_terms, sl_meta, 2),
                 ('path', OKDEF_PATH, path_terms, path_meta, 100), ('pathsub', OKDEF_PATHSUB, psub_terms, psub_meta, 100)]
         results = run_jobs_bf(tmp, [(n, o, t, sh) for n, o, t, m, sh in jobs if t])
         for name, okdef, terms, meta, shard in jobs:
